@@ -39,5 +39,6 @@ from . import sigs  # noqa: E402
 SIGNATURES = {
     "ghost-vars-theory-combination-wrong-sat": lambda case, res: _wrong_sat(res) and sigs.ghost_combination_wrong_sat(case),
     "uf-bool-argument-theory-combination-wrong-sat": lambda case, res: _wrong_sat(res) and sigs.boolarg_combination_wrong_sat(case),
+    "non-incremental-second-check-sat": lambda case, res: _wrong_sat(res) and sigs.nonincr_second_check(case, (res.detail or {}).get("cmd_index")),
     "lookahead-three-assertion-levels": lambda case, res: _wrong_sat(res) and sigs.lookahead_deep(case, (res.detail or {}).get("cmd_index")),
 }
